@@ -1016,3 +1016,67 @@ func indexStr(i ssa.Value) string {
 	}
 	return "[]"
 }
+
+// ScopeRoots returns the functions of the given packages that stand for
+// themselves in an all-function scan when extracted helpers are analysed as part
+// of their callers: every function that is not an extracted helper of another
+// root's scope.
+func (p *Prog) ScopeRoots(shorts ...string) []*ssa.Function {
+	key := strings.Join(shorts, ",")
+	if p.scopeRoots == nil {
+		p.scopeRoots = map[string][]*ssa.Function{}
+	}
+	if r, ok := p.scopeRoots[key]; ok {
+		return r
+	}
+	all := p.RepoFns(shorts...)
+	covered := map[*ssa.Function]bool{}
+	isRoot := map[*ssa.Function]bool{}
+	for _, fn := range all {
+		if !p.helperCandidate(fn) || len(p.Callers(fn)) == 0 {
+			isRoot[fn] = true
+		}
+	}
+	for round := 0; round < 3; round++ {
+		for _, fn := range all {
+			if isRoot[fn] {
+				for h := range p.scopeOf(fn).site {
+					covered[h] = true
+				}
+			}
+		}
+		changed := false
+		for _, fn := range all {
+			if !isRoot[fn] && !covered[fn] {
+				isRoot[fn] = true
+				changed = true
+			}
+		}
+		if !changed {
+			break
+		}
+	}
+	var res []*ssa.Function
+	for _, fn := range all {
+		if isRoot[fn] && !covered[fn] {
+			res = append(res, fn)
+		} else if isRoot[fn] {
+			res = append(res, fn) // a root that is also reached as a helper elsewhere: keep (both views are analysed)
+		}
+	}
+	p.scopeRoots[key] = res
+	return res
+}
+
+// liftInScope: an instruction inside an extracted helper of the current scope is
+// represented by the helper's call site in the scope root (transitively).
+func liftInScope(ins ssa.Instruction) ssa.Instruction {
+	for d := 0; d < 4 && ins != nil && belowScopeRoot(ins.Parent()); d++ {
+		s := curProg.HelperSite(ins.Parent())
+		if s == nil {
+			break
+		}
+		ins = s
+	}
+	return ins
+}
